@@ -194,14 +194,20 @@ class CoqBatch:
 
     Every check carries (case index, code).  Codes < 100 compare the implementation with the
     SPEC (property oracle); codes >= 100 compare it with the MODEL (correspondence).
+    Per-case definitions (add_def) may be referenced in expressions as $name.
     """
 
-    def __init__(self, name: str, imports: list[str], shard=300, preamble: str = ""):
+    def __init__(self, name: str, imports: list[str], shard=300, preamble: str = "", extra_imports: str = ""):
         self.name = name
         self.imports = imports
         self.shard = shard
         self.preamble = preamble
+        self.extra_imports = extra_imports
         self.checks: list[tuple[int, int, str, str, str]] = []
+        self.defs: dict[int, list[tuple[str, str]]] = {}
+
+    def add_def(self, case: int, name: str, term: str, ty: str | None = None):
+        self.defs.setdefault(case, []).append((name, term if ty is None else f"({term}) : {ty}"))
 
     def add(self, case: int, code: int, eq_fn: str, model_expr: str, real_lit: str):
         self.checks.append((case, code, eq_fn, model_expr, real_lit))
@@ -210,10 +216,27 @@ class CoqBatch:
         return len(self.checks)
 
     def _header(self) -> str:
-        h = "From HG Require Import " + " ".join(self.imports) + ".\n"
+        h = "From HG Require Import " + " ".join(self.imports) + ".\n" + self.extra_imports + "\n"
         h += "Set Printing Width 1000000.\nSet Printing Depth 1000000.\n"
         h += self.preamble + "\n"
         return h
+
+    def _subst(self, case: int, expr: str) -> str:
+        for name, _ in sorted(self.defs.get(case, []), key=lambda t: -len(t[0])):
+            expr = expr.replace("$" + name, f"d{case}_{name}")
+        return expr
+
+    def _defs_text(self, cases) -> str:
+        out = []
+        for c in cases:
+            for name, term in self.defs.get(c, []):
+                t = self._subst(c, term)
+                if ") : " in t and t.startswith("("):
+                    body, ty = t.rsplit(") : ", 1)
+                    out.append(f"Definition d{c}_{name} : {ty} := {body[1:]}.")
+                else:
+                    out.append(f"Definition d{c}_{name} := {t}.")
+        return "\n".join(out) + "\n"
 
     def _run_file(self, path: Path, timeout: int):
         rc, out, err = sh(
@@ -221,29 +244,39 @@ class CoqBatch:
         )
         return rc, out, err
 
-    def run(self, timeout=900) -> dict:
-        """Returns {'failed': [(case, code, model_value_text, real_lit)], 'n': int, 'error': str|None}."""
+    def run(self, timeout=1200) -> dict:
+        """Returns {'failed': [(case, code, model_value_text, real_lit, model_expr)], 'n': int, 'error': str|None}."""
         d = BUILD / "cases" / self.name
         d.mkdir(parents=True, exist_ok=True)
         for old in d.glob("*"):
             old.unlink()
-        shards = [self.checks[i : i + self.shard] for i in range(0, len(self.checks), self.shard)]
+        # shards are made of whole cases
+        shards, cur, cur_cases = [], [], set()
+        for chk in self.checks:
+            if len(cur) >= self.shard and chk[0] not in cur_cases:
+                shards.append(cur)
+                cur, cur_cases = [], set()
+            cur.append(chk)
+            cur_cases.add(chk[0])
+        if cur:
+            shards.append(cur)
         files = []
         for si, sh_checks in enumerate(shards):
             lines = [self._header()]
+            lines.append(self._defs_text(list(dict.fromkeys(c[0] for c in sh_checks))))
             lines.append("Definition checks : list (nat * bool) := [")
             body = []
             for j, (case, code, eq_fn, mexp, rlit) in enumerate(sh_checks):
-                body.append(f"  ({j}%nat, {eq_fn} ({mexp}) ({rlit}))")
+                body.append(f"  ({j}%nat, {eq_fn} ({self._subst(case, mexp)}) ({self._subst(case, rlit)}))")
             lines.append(";\n".join(body))
             lines.append("].")
-            lines.append("Eval vm_compute in (map fst (filter (fun x => negb (snd x)) checks)).")
+            lines.append("Eval vm_compute in (map fst (List.filter (fun x => negb (snd x)) checks)).")
             p = d / f"s{si}.v"
             p.write_text("\n".join(lines) + "\n")
             files.append(p)
         failed = []
         error = None
-        with ThreadPoolExecutor(max_workers=12) as ex:
+        with ThreadPoolExecutor(max_workers=14) as ex:
             results = list(ex.map(lambda p: self._run_file(p, timeout), files))
         for si, (rc, out, err) in enumerate(results):
             if rc != 0:
@@ -260,16 +293,17 @@ class CoqBatch:
         # detail pass: print the model's value for failing checks
         detailed = []
         if failed:
-            lines = [self._header()]
-            for k, (case, code, eq_fn, mexp, rlit) in enumerate(failed[:40]):
-                lines.append(f"Eval vm_compute in ({mexp}).")
+            head = failed[:30]
+            lines = [self._header(), self._defs_text(list(dict.fromkeys(c[0] for c in head)))]
+            for k, (case, code, eq_fn, mexp, rlit) in enumerate(head):
+                lines.append(f"Eval vm_compute in ({self._subst(case, mexp)}).")
             p = d / "detail.v"
             p.write_text("\n".join(lines) + "\n")
             rc, out, err = self._run_file(p, timeout)
             vals = [" ".join(v.split()) for v in re.split(r"(?m)^\s*=", out)[1:]] if rc == 0 else []
             for k, chk in enumerate(failed):
-                mv = vals[k] if k < len(vals) else "?"
-                detailed.append((chk[0], chk[1], mv, chk[4], chk[3]))
+                mv = vals[k][:1500] if k < len(vals) else "?"
+                detailed.append((chk[0], chk[1], mv, chk[4][:1500], chk[3][:600]))
         return {"failed": detailed, "n": len(self.checks), "error": error}
 
 
